@@ -296,6 +296,9 @@ type OrderOpt struct {
 	// Unless excludes paths: edges on which one of these atoms holds are cut
 	// (the ordering is only required on the remaining paths).
 	Unless []AtomPred
+	// DeferredB keeps the deferred sites of B, positioned at their defer statement: the rule then
+	// speaks about where the deferred action is SET UP (it runs on every exit after that point).
+	DeferredB bool
 }
 
 // Precedes checks: every path from the entry (or region start) to a site of b
@@ -311,7 +314,11 @@ func (f *Fn) Precedes(r *Rule, a, b *Sites, opt OrderOpt) bool {
 		key = f.Name + ": " + opt.Label
 	}
 	a = a.Sync()
-	b = b.Sync()
+	if opt.DeferredB {
+		b = b.Filter("", func(s Site) bool { return !s.Async })
+	} else {
+		b = b.Sync()
+	}
 	r.AddSites(a.Len() + b.Len())
 	if a.Len() == 0 {
 		r.Fail(key, f.P.Pos(f.Body.Pos()), "no site of %q in %s (rule would be vacuous)", a.Desc, f.Name)
